@@ -203,6 +203,8 @@ Inductive vop :=
 | RReadExact (i : nat) (n : N)                          (* read_exact / read_obj of n bytes *)
 | RReadTo (i : nat) (count : N) (sink : option N)       (* read_to / read_to_at *)
 | RSplit (i : nat) (off : N)
+| RReadExactTo (i : nat) (count : N) (sink : option N)  (* read_exact_to: sink accepts at most k bytes per call *)
+| WWriteAllFrom (i : nat) (count : N) (src : option (list N))   (* write_all_from *)
 | WWrite (i : nat) (data : list N)
 | WWriteV (i : nat) (datas : list (list N))
 | WWriteFrom (i : nat) (count : N) (src : option (list N))  (* write_from / write_from_at *)
@@ -255,6 +257,44 @@ Definition rd_read_exact (n : N) (m : mem) (b : iobuf) : res * iobuf :=
   | other => other
   end.
 
+(* Reader::read_exact_to: loop { read_to(dst, count) : Ok(0) => UnexpectedEof, Ok(n) => count -= n } until count = 0.
+   Each iteration consumes at least one byte, so count + 1 iterations suffice; running out of fuel is the
+   explicit outcome RErr EBadIndex (shown unreachable in Proofs/TransportLoops.v).  The result carries
+   everything handed to the sink. *)
+Fixpoint rd_read_exact_to_loop (fuel : nat) (count : N) (sink : option N) (m : mem) (b : iobuf) (acc : list N)
+  : res * iobuf :=
+  match fuel with
+  | O => (RErr EBadIndex, b)
+  | S f =>
+      if count =? 0 then (ROk (lenN acc) acc, b)
+      else match io_read count sink m b with
+           | (ROk 0 _, b') => (RErr EEof, b')
+           | (ROk n data, b') => rd_read_exact_to_loop f (count - n) sink m b' (acc ++ data)
+           | (e, b') => (e, b')
+           end
+  end.
+Definition rd_read_exact_to (count : N) (sink : option N) (m : mem) (b : iobuf) : res * iobuf :=
+  rd_read_exact_to_loop (S (N.to_nat count)) count sink m b [].
+
+(* VirtioFsWriter::write_all_from: one space check, then loop { write_from(src, count) : Ok(0) => WriteZero,
+   Ok(n) => count -= n }; the source is read sequentially (what one call took is gone for the next) *)
+Fixpoint vw_write_all_from_loop (fuel : nat) (count : N) (src : option (list N)) (m : mem) (d : dirty) (b : iobuf)
+  : res * mem * dirty * iobuf :=
+  match fuel with
+  | O => (RErr EBadIndex, m, d, b)
+  | S f =>
+      if count =? 0 then (ROk 0 [], m, d, b)
+      else match vw_write_from count src m d b with
+           | (ROk 0 _, m', d', b') => (RErr EEof, m', d', b')          (* ErrorKind::WriteZero *)
+           | (ROk n _, m', d', b') =>
+               vw_write_all_from_loop f (count - n) (option_map (skipn (N.to_nat n)) src) m' d' b'
+           | other => other
+           end
+  end.
+Definition vw_write_all_from (count : N) (src : option (list N)) (m : mem) (d : dirty) (b : iobuf) :=
+  if avail b <? count then (RErr ENoSpace, m, d, b)
+  else vw_write_all_from_loop (S (N.to_nat count)) count src m d b.
+
 (* per-op observation: result, then (available, consumed) of the handle the op addressed and,
    for a split, (available, consumed) of the new handle *)
 Record obs := mkobs { o_res : res; o_avail : N; o_cons : N; o_avail2 : N; o_cons2 : N }.
@@ -281,6 +321,18 @@ Definition vstep (op : vop) (st : vstate) : obs * vstate :=
       | None => (obs_bad, st)
       | Some b => let '(r, b') := io_read count sink m b in
                   (obs1 r b', mkv m d (set_nth i b' (v_rd st)) (v_wr st))
+      end
+  | RReadExactTo i count sink =>
+      match nth_error (v_rd st) i with
+      | None => (obs_bad, st)
+      | Some b => let '(r, b') := rd_read_exact_to count sink m b in
+                  (obs1 r b', mkv m d (set_nth i b' (v_rd st)) (v_wr st))
+      end
+  | WWriteAllFrom i count src =>
+      match nth_error (v_wr st) i with
+      | None => (obs_bad, st)
+      | Some b => let '(r, m', d', b') := vw_write_all_from count src m d b in
+                  (obs1 r b', mkv m' d' (v_rd st) (set_nth i b' (v_wr st)))
       end
   | RSplit i off =>
       match nth_error (v_rd st) i with
